@@ -72,6 +72,21 @@ fn main() {
     }
     let hang = arg(&args, "--hang").unwrap_or("hang.ndjson").to_string();
     start_watchdog(arg_u64(&args, "--watchdog-ms", 20_000), hang, "vh");
+    // a panic raised by the code under test outside `guarded` (while the harness probes or observes an object) is an
+    // outcome: one record in the hang file, exit 0; a panic of the harness itself stays a tool error (exit 101)
+    let r = std::panic::catch_unwind(|| dispatch(&args));
+    if let Err(e) = r {
+        let msg = LAST_PANIC.with(|p| p.borrow().clone());
+        let loc = msg.rsplit(" @ ").next().unwrap_or("").to_string();
+        if foreign_location(&loc) {
+            observation_panicked(&msg);
+        }
+        std::panic::resume_unwind(e);
+    }
+}
+
+fn dispatch(args: &[String]) {
+    let args: Vec<String> = args.to_vec();
     let cmd = args[0].as_str();
     let tag = args.get(1).map(|s| s.as_str()).unwrap_or("");
     match (cmd, tag) {
